@@ -44,8 +44,10 @@ CHECKS = {
             'no_deadlock: in every reachable state either the call has returned/raised with all workers exited, or some '
             'thread has an enabled step (lost wake-ups, missed notify, join on a non-empty queue are all excluded for '
             'every interleaving); clean_exit: queue empty, unfinished = 0, all workers exited, so a second call on the '
-            'same backend starts clean. NOT proved: termination (every execution is finite) — a decreasing measure is '
-            'not formalised; the controlled runs bound the step count instead (a run that exceeds it is reported).',
+            'same backend starts clean; always_terminates / bounded_executions: a natural-number measure mu (credits for '
+            'the remaining passes of the master, local weights of every thread and queued item) strictly decreases at every '
+            'step of every thread (mu_decreases), so there is no infinite execution and an execution of k steps has '
+            'k <= mu(init).',
             'Trusted: as C01; Condition modelled without spurious wake-ups (the code re-checks nothing after wait: a '
             'spurious wake-up only causes an extra pass, covered by the mWake-independent invariants but not exhibited).',
             '10 (scheduler)'),
